@@ -1,7 +1,7 @@
 import Haiway.Model.Queue
 import Driver.Common
 /-! `hwmodel queue`: one operation sequence per line.
-ops: e1 e2 fin finerr cancelq recv cancelrecv run
+ops: e1 e2 fin finerr cancelq recv cancelrecv run step
 out: see `runCase`  -/
 namespace Driver.Queue
 open Haiway.Queue
@@ -16,6 +16,7 @@ def parseOp (tok : String) (nxt : Nat) : Option (Op × Nat) :=
   | "recv" => some (.recv, nxt)
   | "cancelrecv" => some (.cancelRecv, nxt)
   | "run" => some (.run, nxt)
+  | "step" => some (.run, nxt)     -- one loop iteration: on the code as it is every `run` transition takes a single iteration
   | _ => none
 
 def showObs : Obs → String
